@@ -4,6 +4,21 @@ import json, os
 ROOT = os.path.dirname(os.path.dirname(os.path.abspath(__file__)))
 props = [json.loads(l) for l in open(os.path.join(ROOT, "properties.jsonl"))]
 CLAIMED = {
+ "C04": ("Kernel-checked decision theorems at the unwind_frame level: no module / module without data / unbuildable index -> exactly the frame-pointer rule; address not covered by any FDE (any presentation) -> leaf rule in a first frame, frame-pointer rule in a caller frame; what both conventions compute; a frame-pointer chain ending in the architecture's null marker is walked completely and completes with Ok(None) (x86_64 tests the current bp, aarch64 the saved fp - stated explicitly). Python convention oracle on the real code over the whole reason matrix and over chains.",
+         "theorem (Coq, decision matrix + chain induction) + convention oracle on real code",
+         "Mach-O and PE reasons (outside __unwind_info, missing .pdata entry, PE on aarch64) join with their models; empty FDE sets count as 'no usable unwind information'."),
+ "C05": ("Kernel-checked theorems for both architectures: for every row of the class and every state on which the DWARF specification step (exact integers) is defined, translate-then-exec or generic evaluation returns exactly the specified return address, sp and fp, outside the guard cases other properties justify; both paths are proved against the same specification (lossless compression). Independent Python DWARF oracle on the real code over an offset/slot/state grid; hook-level correspondence for the compressed rules. Known finding S14 (aarch64 undefined lr/fp rules) excluded and classified.",
+         "theorem (Coq, refinement to a DWARF spec) + independent DWARF oracle on real code",
+         "gimli's CFI parsing/row computation by contract; expression-valued rules are outside the class."),
+ "C10": ("Kernel-checked theorems at the unwind_frame level for any cache and any unwind data of the modelled kinds: x86_64 caller steps never decrease sp, never succeed with sp and address both unchanged, and two consecutive steps strictly increase sp (so no state repeats and at most 2*(sp_end-sp_start)+1 steps: termination); aarch64 caller steps strictly increase sp; frame-pointer steps are strict. Real code judged on recorded (address, sp, fp) traces of adversarial walks.",
+         "theorem (Coq) + trace judge on real code",
+         "PE generic path (SET_FPREG / machine frames) is outside until PE is modelled (suspected finding S9b)."),
+ "C11": ("Kernel-checked theorems: no null frame is ever yielded; rule execution completes with Ok(None) only at an enumerated root marker (both architectures); on a stack truncated at any cut a rule step either names an unreadable address (at or above the cut) or returns exactly its full-stack result. Real code: every scenario walked on every truncation of its stack and compared with the full walk; root markers incl. the generic-path null return address.",
+         "theorem (Coq, truncation monotonicity + marker enumeration) + all-cuts oracle on real code",
+         "Truncation clause is for rule-based steps, as the property states; generic paths swallow failed reads into the fallback."),
+ "C12": ("Kernel-checked theorems: for any FDE set with pairwise disjoint non-empty ranges in any section order, gimli's hdr table (by contract) and framehop's own index (stable sort + binary search) both select the covering FDE whenever one exists and a non-covering one otherwise, hence identical callback results for the three presentations on every address (both architectures). Real code: the same FDE set registered three times, every boundary probed, results compared with each other and with the covering FDE.",
+         "theorem (Coq, sortedness/permutation) + triple-presentation oracle on real code",
+         "gimli EhHdrTable::lookup, sort_by_key and binary_search by contract; FDE starts within 4 GiB of the image base."),
  "C06": ("Kernel-checked theorem over arbitrary histories (any number of unwinders/caches, add/remove/clone, <= 65536 operations, consistent address kinds): every unwinding call returns the (result, registers) of the same call on a freshly created cache; proved by the generation/cache invariants (each identity denotes one module list; every entry holds the state-independent rule of its address) and instantiated for both architectures after proving that every callback outcome is either state-independent or never cached. On the real code every call is twinned with a fresh-cache call.",
          "theorem (Coq, invariant over histories) + fresh-cache twin oracle on real code + correspondence",
          "gimli by contract; Mach-O/PE callbacks join the static classification when their models land."),
